@@ -110,9 +110,10 @@ def multi_join_oracle(trial, calls):
                 if k != o['id']: v.append(('multi-join-foreign-id', f'frame of id {k} in set {o["id"]}'))
                 per[i].append((st, t))
             for i, s in enumerate(trial['srcs']):
-                want = sorted(t for t in tops[i] if recvfeed.subscribed(s['topics'], t))
+                blk = next((T for _, k, T in trial['published'][i] if k == o['id']), tops[i])     # the topics of THAT block (a frame may lack a topic its source usually has)
+                want = sorted(t for t in blk if recvfeed.subscribed(s['topics'], t))
                 have = sorted(st for st, _ in per[i])
-                if want != have: v.append(('multi-join-partial-block', f'set {o["id"]}: source {i} block {tops[i]} sub {s["topics"]}: expected {want}, got {have}'))
+                if want != have: v.append(('multi-join-partial-block', f'set {o["id"]}: source {i} block {blk} sub {s["topics"]}: expected {want}, got {have}'))
                 for st, t in per[i]:
                     if t != recvfeed.mapped(s['topics'], st): v.append(('multi-join-name', f'{st} handed on as {t}'))
             if o['id'] not in (common or set()): v.append(('multi-join-not-common', f'id {o["id"]} not published by every source'))
